@@ -1,4 +1,5 @@
 """C12 — CFG emptiness, finiteness, symbol classes and word enumeration."""
+import random
 import cfglib
 import cfg_engine
 from props._cfg_common import TRUSTED, ASSUMPTIONS, TECHNIQUE
@@ -11,9 +12,9 @@ LEVEL_TEXT = ("Coq theorems (no axioms, all grammars): generating, nullable and 
               "is_empty is exactly 'no word generated'; get_words(n) is modelled by its specification (each word of length <= n once) and proved, and also mirrored end to end (nullable check + length-indexed table on the normal form, C12_get_words_code; stop rule of the unbounded mode C12_get_words_stop_rule). is_finite mirrors the "
               "code (cycle test on the variable graph of the normal form) and is proved to decide finiteness of the language (acyclic: derivation trees are "
               "shallow, words are short; cyclic: a cycle through generating, reachable variables pumps) for every registered grammar with a start symbol: "
-              "the normal form is proved to have only generating and reachable variables (the boolean form of that fact is also evaluated on every case). The unbounded mode of get_words is exercised under an alarm only.")
+              "the normal form is proved to have only generating and reachable variables (the boolean form of that fact is also evaluated on every case). The unbounded mode of get_words is compared with the model on finite languages with gaps in their word lengths (longest word <= 16).")
 LEVEL_NOTE = "Trusted: Coq kernel; hand-written model validated by correspondence; Python harness."
-RULE = ("random grammars (as C08) x {get_generating_symbols, get_nullable_symbols, get_reachable_symbols, is_empty, get_words(n) for n in 0..4 (yielded sequence as a multiset), is_finite}; sets compared exactly; "
+RULE = ("random grammars (as C08) x {get_generating_symbols, get_nullable_symbols, get_reachable_symbols, is_empty, get_words(n) for n in 0..4 (yielded sequence as a multiset), is_finite}, get_words() unbounded on doubling / tripling chains over one terminal (finite, gaps in the word lengths, longest word <= 16); sets compared exactly; "
         "non-trivial = at least 2 productions and a body of length >= 2")
 EXPLANATION = "Symbol classes compared as sets with the model's least fixed points; is_empty with the model."
 
@@ -31,6 +32,34 @@ def generate(ctx):
             continue
         cases.append({"op": OPS[i % len(OPS)], "g": g, "n": ctx.rng.choice([0, 1, 2, 3, 3, 4]) if len(g["terms"]) < 3 else ctx.rng.choice([0, 1, 2, 3]),
                       "warm": ctx.rng.choice([None, None, ["is_empty"], ["get_nullable_symbols", "get_generating_symbols"], ["generate_epsilon"]])})
+    # unbounded get_words() on finite languages whose word lengths have gaps (own generator, the stream above is unchanged): doubling / tripling
+    # chains over one terminal, longest word <= 16; the model is asked for every word up to 16
+    r2 = random.Random("c12-gaps|%s" % ctx.rng.random())
+    made = 0
+    while made < (40 if ctx.tier == "quick" else 1500):
+        depth = r2.randint(1, 3)
+        names = ["S", "B", "C", "D"][:depth + 1]
+        prods, longest = [], {}
+        leaf = r2.choice([1, 1, 2])
+        prods.append([names[-1], [["T", "a"]] * leaf])
+        longest[names[-1]] = leaf
+        if r2.random() < 0.3:
+            prods.append([names[-1], [["T", "a"]] * (leaf + r2.choice([1, 2]))])
+            longest[names[-1]] = prods[-1][1].__len__()
+        for k in range(depth - 1, -1, -1):
+            arity = r2.choice([2, 2, 3]) if k == 0 else 2
+            prods.append([names[k], [["V", names[k + 1]]] * arity])
+            longest[names[k]] = arity * longest[names[k + 1]]
+            if r2.random() < (0.8 if k == 0 else 0.3):
+                short = r2.choice([1, 1, 2])
+                prods.append([names[k], [["T", "a"]] * short])
+                longest[names[k]] = max(longest[names[k]], short)
+        if longest["S"] > 16:
+            continue
+        r2.shuffle(prods)
+        g = {"vars": names, "terms": ["a"], "start": "S", "prods": prods, "profile": "gaps", "names": "plain"}
+        cases.append({"op": "get_words", "g": cfglib.normalise(g) if hasattr(cfglib, "normalise") else g, "n": 16, "unbounded": True, "warm": None})
+        made += 1
     return cases
 
 
